@@ -206,7 +206,9 @@ def run_case(case):
         probed = 0
         rec = bool(cfg.get("recursive", True))
         targets = dict(start_inodes)
-        if not case.get("race") and not case.get("unpaced"):
+        if case.get("unpaced") and not case.get("race"):
+            time.sleep(0.7)  # longer than the pairing delay: pending removals of watches have fallen due
+        if not case.get("race"):
             for p, k_ in fsops.disk_tree(s.root).items():
                 if k_ == "d" and p not in targets:
                     targets[p] = os.lstat(os.path.join(s.root, p)).st_ino
